@@ -4,6 +4,7 @@ import SeqVerif.Model.AggRun4
 import SeqVerif.Model.AggOut
 import SeqVerif.Model.AggE2E
 import SeqVerif.Model.AggLimits
+import SeqVerif.Model.AggCodec
 import SeqVerif.Extracted.C06
 set_option linter.unusedVariables false
 /-!
@@ -284,6 +285,63 @@ theorem c06_sentinel_not_neutral :
     (SC.merge 8096 (fun _ => 0) SC.new ⟨10000000000000000000, 10000000000000000000, 10000000000000000000, 1, 0, []⟩).min
       = 10000000000000000000 := by decide
 
+/-! ## the conversions between processes (store -> proxy -> client, JSON persistence) -/
+
+/-- **bin timestamps survive the protobuf `Timestamp`**: `seq.MID(timestamppb.New(m.Time()).AsTime().UnixMilli()) = m`
+for *every* MID of the uint64 range - sub-second MIDs (nanos = (m % 1000) * 10^6), MID 0 (the epoch), and MIDs
+>= 2^63, which `int64(m)` turns negative: they travel as pre-1970 timestamps and come back.  Second part: the
+explicit (Seconds, Nanos) below 2^63. -/
+theorem c06_ts_roundtrip (m : Nat) (hm : m < 18446744073709551616) :
+    tsToMid (midToTs m) = m ∧
+    (m < 9223372036854775808 → midToTs m = (((m / 1000 : Nat) : Int), (((m % 1000) * 1000000 : Nat) : Int))) :=
+  ⟨ts_roundtrip m hm, midToTs_small m⟩
+
+/-- **`responseToQPR (buildSearchResponse q) = q`** (aggregations): a partial result whose bins have distinct keys
+and MIDs below 2^64 leaves the store -> proxy hop exactly as it entered it -/
+theorem c06_hop_identity (a : AS) (hn : KeysNodup a.bins) (hm : ∀ kh, kh ∈ a.bins → kh.1.mid < 18446744073709551616) :
+    hop a = a := hop_id a hn hm
+
+/-- **merge and Aggregate commute with the hop**: merging (any tree) the converted partial results equals merging
+the originals, and `Aggregate` of a converted result equals `Aggregate` of the original - so the merge-order
+theorems hold across processes (fractions merged in the store, shards merged in the proxy) -/
+theorem c06_merge_across_hop (lim : Nat) (pick : List Int → Nat) (t : MTree AS)
+    (hleaf : ∀ l, l ∈ t.leaves → KeysNodup l.bins ∧ ∀ kh, kh ∈ l.bins → kh.1.mid < 18446744073709551616) :
+    evalAS lim pick (t.map hop) = evalAS lim pick t ∧
+    ∀ fixed fn qs skip, ∀ l, l ∈ t.leaves → aggregate fixed fn qs skip (hop l) = aggregate fixed fn qs skip l := by
+  constructor
+  · have : t.map hop = t := by
+      induction t with
+      | leaf a => simp [MTree.map, hop_id a (hleaf a (by simp [MTree.leaves])).1 (hleaf a (by simp [MTree.leaves])).2]
+      | node l r ihl ihr =>
+        simp only [MTree.map]
+        rw [ihl (fun x hx => hleaf x (by simp [MTree.leaves]; exact Or.inl hx)),
+          ihr (fun x hx => hleaf x (by simp [MTree.leaves]; exact Or.inr hx))]
+    rw [this]
+  · intro fixed fn qs skip l hl
+    rw [hop_id l (hleaf l hl).1 (hleaf l hl).2]
+
+/-- **proxy -> client** (`makeProtoAggregation`): buckets are converted one by one in `Aggregate`'s order, and the
+public bucket (key, value incl. NaN, quantiles, not-exists, optional timestamp) determines the internal one -
+nothing is lost; `Ts` is absent exactly for the bin without time -/
+theorem c06_api_bucket_faithful (r : AggResult) :
+    makeProtoAggregation r = (r.buckets.map toApiBucket, r.notExists) ∧
+    (∀ b, (toApiBucket b).ts = none ↔ b.mid = 0) ∧
+    ∀ a b : Bucket, a.mid < 18446744073709551616 → b.mid < 18446744073709551616 → toApiBucket a = toApiBucket b → a = b :=
+  ⟨rfl, fun b => by unfold toApiBucket; by_cases h : b.mid = 0 <;> simp [h], fun _ _ ha hb h => toApiBucket_injective ha hb h⟩
+
+/-- `makeProtoHistogram`: `seq.MIDToTime` multiplies by 10^6 in an int64 `Duration`; the bucket timestamp is the
+bucket's MID for every MID up to 9223372036854 ms (year 2262).  Beyond that the Duration wraps - outside what
+ingestion can store (documents that far ahead are re-timed). -/
+theorem c06_hist_ts (m : Nat) (h : m ≤ 9223372036854) : histTs m = midToTs m := histTs_eq m h
+
+/-- **JSON persistence** of a partial result (`AggBin.toKey` / `fromKey`, the codec proved in C19's
+`c19_aggbin_key_roundtrip`): unmarshalling what was marshalled gives the same result, for tokens containing `|`
+and MIDs above 2^63 too - given `strconv.Atoi (strconv.Itoa i) = i` and no `|` in `Itoa`'s output (trusted) -/
+theorem c06_json_roundtrip (render : Int → List Nat) (parse : List Nat → Option Int) (a : AS) (hn : KeysNodup a.bins)
+    (hk : ∀ kh, kh ∈ a.bins → kh.1.mid < 18446744073709551616 ∧
+      parse (render (SV.Async.toI64 kh.1.mid)) = some (SV.Async.toI64 kh.1.mid) ∧ 124 ∉ render (SV.Async.toI64 kh.1.mid)) :
+    asFromJSON parse (asToJSON render a) = a := json_roundtrip render parse a hn hk
+
 /-! ## values -/
 
 /-- **count / sum / min / max / not-exists of a bin** are those of the documents' values: this is the content of
@@ -477,6 +535,17 @@ theorem c06_x_positional_labels :
 `valueBySource`; source indexes and TIDs share the key type, so a different store key would alias) -/
 theorem c06_x_token_cache : tokenCacheKeys = ["source", "source"] := by decide
 
+/-- the unit conversions of the hops are the modelled ones: `MID.Time() = time.UnixMilli(int64(m))`, bin `Ts` via
+`timestamppb.New(bin.MID.Time())`, back via `Ts.AsTime().UnixMilli()`, public buckets `Ts` only for a non-dummy MID,
+histogram buckets via `seq.MIDToTime` (`time.Duration(t) * time.Millisecond`) -/
+theorem c06_x_conversions :
+    midTimeExpr = ["time.UnixMilli(int64(m))"] ∧
+    storeBinTs = ["timestamppb.New(bin.MID.Time())"] ∧
+    proxyBinMid = ["seq.MID(bin.Ts.AsTime().UnixMilli())"] ∧
+    apiBucketTs = ["item.MID != consts.DummyMID", "timestamppb.New(item.MID.Time())"] ∧
+    apiHistTs = ["timestamppb.New(seq.MIDToTime(ts))"] ∧
+    midToTimeExpr = ["time.Unix(0, 0).Add(MIDToDuration(t))", "time.Duration(t) * time.Millisecond"] := by decide
+
 /-- histogram bucket rule of `iterateEvalTree`, accumulation in `MergeQPRs`, time bins of `provideExtractTimeFunc` -/
 theorem c06_x_hist :
     histBucketAssigns = [":= mid", "-= bucket % seq.MID(params.HistInterval)"] ∧
@@ -536,5 +605,11 @@ empty cache is coherent; and a limit of 1 makes the same walk fail -/
 example : walkLim false 2000 [(1, 0), (2, 0), (3, 1)] [] [1, 2, 3, 4] = some [some 0, some 0, some 1, none] ∧
     walkLim false 1 [(1, 0), (2, 0), (3, 1)] [] [1, 2, 3, 4] = none ∧ CacheOk (fun i => toString i) [] := by
   refine ⟨by decide, by decide, fun _ h => by cases h⟩
+
+/-- the timestamp conversion on the interesting MIDs: sub-second, 0, 2^63 - 1, 2^63, 2^64 - 1 -/
+example : midToTs 1758800000123 = (1758800000, 123000000) ∧ midToTs 0 = (0, 0) ∧
+    midToTs 9223372036854775807 = (9223372036854775, 807000000) ∧
+    midToTs 9223372036854775808 = (-9223372036854776, 192000000) ∧
+    midToTs 18446744073709551615 = (-1, 999000000) ∧ tsToMid (-1, 999000000) = 18446744073709551615 := by decide
 
 end SV.Props.C06
